@@ -130,6 +130,14 @@ Fixpoint payload (t : tag) : list N :=
   | TLongArray l => be 4 (lenN l) ++ flat_map (fun z => be 8 (u64 z)) l
   end.
 
+(* nesting: number of lists / compounds on the deepest path *)
+Fixpoint depth (t : tag) : N :=
+  match t with
+  | TList _ l => 1 + fold_right (fun x m => N.max (depth x) m) 0 l
+  | TCompound l => 1 + fold_right (fun kv m => N.max (depth (snd kv)) m) 0 l
+  | _ => 0
+  end.
+
 Inductive fmt := File | Net.
 (* a document: id, (file format only) the root name, payload *)
 Definition doc_file (name : list N) (t : tag) : list N :=
@@ -187,6 +195,12 @@ Definition eUnknown : N := 3.  (* unknown tag id *)
 Definition eEND : N := 4.      (* ErrEND *)
 Definition eGzip : N := 5.     (* 0x1f / 0x78 where a tag id is expected *)
 Definition eType : N := 6.     (* tag cannot be stored in the Go destination *)
+Definition eDepth : N := 7.    (* "exceeded max nesting depth" (since fixes e74e260, 2aff50e) *)
+
+(* Decoder.enter: a TagList / TagCompound may be entered while depth <= maxNestingDepth (the outermost value is
+   depth 0), so at most maxNestingDepth + 1 of them are open at once.  The decoders below carry the number of
+   containers that may still be opened (`dep`); the constant is read from nbt/snbt_scanner.go on every run. *)
+Definition max_open : N := Z.to_N nbt_maxNestingDepth + 1.
 
 (* d.r.ReadByte, readInt8/16/32/64 (io.ReadFull into a fixed array, big-endian, signed) *)
 Definition rd_u8 : dec N := ReadByte (fun b => Ret b).
@@ -235,7 +249,7 @@ Fixpoint comp_loop {A M} (fuel : nat) (rt : dec (N * list N)) (d : N -> dec A)
   end.
 
 (* Decoder.unmarshal for a destination of kind Interface holding nil *)
-Fixpoint dec_any (fuel : nat) (id : N) : dec aval :=
+Fixpoint dany (fuel : nat) (dep : N) (id : N) : dec aval :=
   match fuel with
   | O => NoFuel
   | S f =>
@@ -252,11 +266,13 @@ Fixpoint dec_any (fuel : nat) (id : N) : dec aval :=
         else ReadFull (Z.to_N n) (fun bs => Ret (ABytes bs))             (* make + io.ReadFull *)
       else if id =? idString then s <- rd_string ;; Ret (AString s)
       else if id =? idList then
+        if dep =? 0 then Fail eDepth else
         et <- rd_u8 ;; n <- rd_i32 ;;
         if (n <? 0)%Z then Fail eNeg
-        else l <- rep f (Z.to_N n) (dec_any f et) [] ;; Ret (AList l)
+        else l <- rep f (Z.to_N n) (dany f (dep - 1) et) [] ;; Ret (AList l)
       else if id =? idCompound then
-        m <- comp_loop f rd_tag (dec_any f) (fun k v m => map_set k v m) [] ;; Ret (AMap m)
+        if dep =? 0 then Fail eDepth else
+        m <- comp_loop f rd_tag (dany f (dep - 1)) (fun k v m => map_set k v m) [] ;; Ret (AMap m)
       else if id =? idIntArray then
         n <- rd_i32 ;;
         if (n <? 0)%Z then Fail eNeg                                     (* since fix df91649 *)
@@ -269,13 +285,16 @@ Fixpoint dec_any (fuel : nat) (id : N) : dec aval :=
   end.
 
 (* destination map[string]any (nil map): only a compound fits; its values are decoded as interface{} *)
-Definition dec_map (fuel : nat) (id : N) : dec aval :=
-  if id =? idCompound then dec_any fuel id
+Definition dec_any (fuel : nat) (id : N) : dec aval := dany fuel max_open id.
+
+Definition dmap (fuel : nat) (dep : N) (id : N) : dec aval :=
+  if id =? idCompound then dany fuel dep id
   else if id =? idEnd then Fail eEND
   else Fail eType.
+Definition dec_map (fuel : nat) (id : N) : dec aval := dmap fuel max_open id.
 
 (* Decoder.rawRead: read and discard one value *)
-Fixpoint dec_skip (fuel : nat) (id : N) : dec unit :=
+Fixpoint dskip (fuel : nat) (dep : N) (id : N) : dec unit :=
   match fuel with
   | O => NoFuel
   | S f =>
@@ -295,12 +314,16 @@ Fixpoint dec_skip (fuel : nat) (id : N) : dec unit :=
         n <- rd_i32 ;;
         if (n <? 0)%Z then Fail eNeg else _ <- rep f (Z.to_N n) rd_i64 [] ;; Ret tt
       else if id =? idList then
+        if dep =? 0 then Fail eDepth else
         et <- rd_u8 ;; n <- rd_i32 ;;
-        if (n <? 0)%Z then Fail eNeg else _ <- rep f (Z.to_N n) (dec_skip f et) [] ;; Ret tt
+        if (n <? 0)%Z then Fail eNeg else _ <- rep f (Z.to_N n) (dskip f (dep - 1) et) [] ;; Ret tt
       else if id =? idCompound then
-        comp_loop f rd_tag (dec_skip f) (fun _ _ a => a) tt
+        if dep =? 0 then Fail eDepth else
+        comp_loop f rd_tag (dskip f (dep - 1)) (fun _ _ a => a) tt
       else Fail eUnknown                                                 (* End and ids above 12 *)
   end.
+
+Definition dec_skip (fuel : nat) (id : N) : dec unit := dskip fuel max_open id.
 
 (* destination struct{} (no fields, unknown fields allowed): every entry of a root compound is skipped
    with rawRead; any other root tag does not fit *)
@@ -326,8 +349,28 @@ Definition dec_raw (fuel : nat) (id : N) : dec (N * list N) :=
   if id =? idEnd then Fail eEND
   else r <- tee (dec_skip fuel id) ;; Ret (id, snd r).
 
+(* The same result as `run_flat (Decode f (dec_raw fuel))`, computed without the tee (which re-wraps one bind per
+   read and makes the extracted model quadratic in the number of reads): a decoder without bare Reads consumes
+   a prefix of its input, so what the tee captured is the input minus the rest.  For the drivers; proved equal
+   in Proofs/C01_more.v (decode_raw_fast_eq). *)
+Definition capture {A} (d : dec A) (s : list N) : fres (A * list N) :=
+  match run_fast d s with
+  | FOk a r => FOk (a, firstn (length s - length r) s) r
+  | FErr e => FErr e | FPanic w => FPanic w | FFuel => FFuel
+  end.
+Definition decode_raw_fast (f : fmt) (fuel : nat) (s : list N) : fres (list N * (N * list N)) :=
+  match run_fast (match f with File => rd_tag | Net => t <- rd_u8 ;; Ret (t, []) end) s with
+  | FOk tn r =>
+      if fst tn =? idEnd then FErr eEND
+      else match capture (dec_skip fuel (fst tn)) r with
+           | FOk ac r' => FOk (snd tn, (fst tn, snd ac)) r'
+           | FErr e => FErr e | FPanic w => FPanic w | FFuel => FFuel
+           end
+  | FErr e => FErr e | FPanic w => FPanic w | FFuel => FFuel
+  end.
+
 (* StringifiedMessage.encode: binary -> text; only the control skeleton (bytes consumed, errors) *)
-Fixpoint dec_text (fuel : nat) (id : N) : dec unit :=
+Fixpoint dtext (fuel : nat) (dep : N) (id : N) : dec unit :=
   match fuel with
   | O => NoFuel
   | S f =>
@@ -347,12 +390,15 @@ Fixpoint dec_text (fuel : nat) (id : N) : dec unit :=
         n <- rd_i32 ;;
         if (n <? 0)%Z then Fail eNeg else _ <- rep f (Z.to_N n) rd_i64 [] ;; Ret tt
       else if id =? idList then
+        if dep =? 0 then Fail eDepth else
         et <- rd_u8 ;; n <- rd_i32 ;;
-        if (n <? 0)%Z then Fail eNeg else _ <- rep f (Z.to_N n) (dec_text f et) [] ;; Ret tt
+        if (n <? 0)%Z then Fail eNeg else _ <- rep f (Z.to_N n) (dtext f (dep - 1) et) [] ;; Ret tt
       else if id =? idCompound then
-        comp_loop f rd_tag (dec_text f) (fun _ _ a => a) tt
+        if dep =? 0 then Fail eDepth else
+        comp_loop f rd_tag (dtext f (dep - 1)) (fun _ _ a => a) tt
       else Fail eUnknown
   end.
+Definition dec_text (fuel : nat) (id : N) : dec unit := dtext fuel max_open id.
 (* StringifiedMessage.UnmarshalNBT *)
 Definition dec_snbt (fuel : nat) (id : N) : dec unit :=
   if id =? idEnd then Fail eEND else dec_text fuel id.
@@ -374,7 +420,7 @@ Inductive dval : Type :=
 | DComp (l : list (list N * dval)).
 
 (* dynbt.Value.UnmarshalNBT as of fixes e10f8a3 4d027ab edad8f7 b7b5a08 *)
-Fixpoint dec_dyn (fuel : nat) (id : N) : dec dval :=
+Fixpoint ddyn (fuel : nat) (dep : N) (id : N) : dec dval :=
   match fuel with
   | O => NoFuel
   | S f =>
@@ -392,12 +438,14 @@ Fixpoint dec_dyn (fuel : nat) (id : N) : dec dval :=
           if (n <? 0)%Z then Fail eNeg
           else ReadFull (Z.to_N n) (fun bs => Ret (DData id (h ++ bs))))
       else if id =? idList then
+        if dep =? 0 then Fail eDepth else
         t <- rd_u8 ;; n <- rd_i32 ;;
         if (n <? 0)%Z then Fail eNeg
         else if (t =? idEnd) && (0 <? n)%Z then Fail eEND
-        else l <- rep f (Z.to_N n) (dec_dyn f t) [] ;; Ret (DList l)
+        else l <- rep f (Z.to_N n) (ddyn f (dep - 1) t) [] ;; Ret (DList l)
       else if id =? idCompound then
-        m <- comp_loop f rd_tag_dyn (dec_dyn f) (fun k v m => (k, v) :: m) [] ;; Ret (DComp (rev_append m []))
+        if dep =? 0 then Fail eDepth else
+        m <- comp_loop f rd_tag_dyn (ddyn f (dep - 1)) (fun k v m => (k, v) :: m) [] ;; Ret (DComp (rev_append m []))
       else if id =? idIntArray then
         ReadFull 4 (fun h => let n := sx32 (unbe h) in
           if (n <? 0)%Z then Fail eNeg
@@ -408,6 +456,8 @@ Fixpoint dec_dyn (fuel : nat) (id : N) : dec dval :=
           else ReadFull (8 * Z.to_N n) (fun bs => Ret (DData id (h ++ bs))))
       else Fail eUnknown
   end.
+
+Definition dec_dyn (fuel : nat) (id : N) : dec dval := ddyn fuel max_open id.
 
 (* what the format assigns to a tree in dynbt's representation (the element id of a list and the
    original entry order of a compound are what dynbt keeps: entries in order, duplicates kept) *)
@@ -464,13 +514,13 @@ Definition accepts (id : N) (t : gty) : bool :=
       else (64 <=? w)
   end.
 
-Fixpoint dec_ty (fuel : nat) (t : gty) (id : N) : dec tval :=
+Fixpoint dty (fuel : nat) (dep : N) (t : gty) (id : N) : dec tval :=
   match fuel with
   | O => NoFuel
   | S f =>
       match t with
-      | GAny => a <- dec_any fuel id ;; Ret (XAny a)
-      | GMapAny => a <- dec_map fuel id ;; Ret (XAny a)
+      | GAny => a <- dany fuel dep id ;; Ret (XAny a)
+      | GMapAny => a <- dmap fuel dep id ;; Ret (XAny a)
       | _ =>
       if id =? idEnd then Fail eEND
       else if id =? idByte then
@@ -528,16 +578,18 @@ Fixpoint dec_ty (fuel : nat) (t : gty) (id : N) : dec tval :=
              | _ => Fail eType
              end
       else if id =? idList then
+        if dep =? 0 then Fail eDepth else
         et <- rd_u8 ;; n <- rd_i32 ;;
         if (n <? 0)%Z then Fail eNeg
         else match t with
-             | GSl e => l <- rep f (Z.to_N n) (dec_ty f e et) [] ;; Ret (XSlice l)
+             | GSl e => l <- rep f (Z.to_N n) (dty f (dep - 1) e et) [] ;; Ret (XSlice l)
              | _ => Fail eType
              end
       else if id =? idCompound then Fail eType
       else Fail eUnknown
       end
   end.
+Definition dec_ty (fuel : nat) (t : gty) (id : N) : dec tval := dty fuel max_open t id.
 
 (* ------------------------------------------------------------------------------------------ *)
 (* Part 3: nbt/encode.go over a small universe of Go values (no structs, pointers, Marshalers)  *)
@@ -674,10 +726,10 @@ Fixpoint write_value (v : gval) (t : N) : mres :=
     end
   else MErr.                                                               (* "unsupported type" *)
 
-(* Encoder.Encode(v, name): nil panics in reflect (Value.Type on the zero Value) *)
+(* Encoder.Encode(v, name): the untyped nil is refused with an error (since fix 201ce44) *)
 Definition marshal (f : fmt) (name : list N) (v : gval) : mres :=
   match v with
-  | VNil => MPanic
+  | VNil => MErr
   | _ =>
       let t := get_tag v in
       mbind (match f with File => write_tag t name | Net => MOk [t] end) (fun h =>
